@@ -40,6 +40,14 @@ Fixpoint implied_pubs (self : node) (listing : list node) (seen : list ev) (bs :
       else implied self listing (seen ++ b) :: implied_pubs self listing (seen ++ b) r
   end.
 
+(* histories with the node's own state changes: the events of the history in delivery order, and
+   the node's record with the state it set last *)
+Definition events_of (h : list hop) : list ev :=
+  flat_map (fun x => match x with HBatch b => b | _ => [] end) h.
+
+Definition current_self (self : node) (h : list hop) : node :=
+  fold_left (fun n x => match x with HSelf s => with_state n s | _ => n end) h self.
+
 (* ------------------------------------------------------------------ part B: directory *)
 (* the record that answers for node [id]: the last one in the list *)
 Definition last_with (ms : list member) (id : Z) : option member :=
@@ -145,7 +153,69 @@ Definition index_ok (ms : list member) (q : answers) : bool :=
       && forallb (fun m => zmem (mid m) (map mid members)) ms
   end.
 
-(* one publication, judged against the history that led to it *)
+(* ------------------------------------------------------------------ the other getters *)
+(* Laws of the package-level getters of node/app/utils.go, stated over the per-type lists [L],
+   the working lists [W] and the service types [tys] of the directory.  Random picks are judged
+   by membership, lookups by name by membership in the admissible set. *)
+Section ExtLaws.
+  Variables (tys : list Z) (L W : Z -> list item).
+
+  (* candidates GetService(n) may answer: the first item of that name in the list of each type *)
+  Definition cands (n : Z) : list item :=
+    flat_map (fun t => match find (named n) (L t) with Some it => [it] | None => [] end) tys.
+
+  Definition opt_z_eqb := option_eqb Z.eqb.
+  Definition opt_item_eqb := option_eqb item_eqb.
+
+  Definition pick_ok (l : list item) (a : option item) : bool :=
+    match a with None => is_nil l | Some it => existsb (item_eqb it) l end.
+  Definition pick_pid_ok (l : list item) (p : option Z) : bool :=
+    match l with [] => opt_z_eqb p None | _ => existsb (fun it => opt_z_eqb (ipid it) p) l end.
+  Definition pick_name_ok (l : list item) (p : option Z) : bool :=
+    match p with None => is_nil l | Some n => existsb (named n) l end.
+  Definition lookup_ok (f : option item -> option Z) (n : Z) (p : option Z) : bool :=
+    match cands n with
+    | [] => opt_z_eqb p None
+    | c => existsb (fun it => opt_z_eqb (f (Some it)) p) c
+    end.
+
+  Definition qt_ok (x : qtype) : bool :=
+    match x with
+    | QT t fi fw fp fwp ri rw rp rwp rn rwn ls lw =>
+        opt_item_eqb fi (first_of (L t)) && opt_item_eqb fw (first_of (W t))
+        && opt_z_eqb fp (pid_of (first_of (L t))) && opt_z_eqb fwp (pid_of (first_of (W t)))
+        && pick_ok (L t) ri && pick_ok (W t) rw
+        && pick_pid_ok (L t) rp && pick_pid_ok (W t) rwp
+        && pick_name_ok (L t) rn && pick_name_ok (W t) rwn
+        && opt_z_eqb ls (len_opt (L t)) && opt_z_eqb lw (len_opt (W t))
+    end.
+
+  Definition qn_ok (x : qname) : bool :=
+    match x with
+    | QN n pid wpid apid =>
+        lookup_ok pid_of n pid && lookup_ok work_pid_of n wpid && lookup_ok pid_of n apid
+    end.
+
+  Definition ext_ok (e : ext) : bool :=
+    match e with
+    | Ext ts ns =>
+        zlist_eqb (map (fun x => match x with QT t _ _ _ _ _ _ _ _ _ _ _ _ => t end) ts) probe_types
+        && forallb qt_ok ts
+        && zlist_eqb (map (fun x => match x with QN n _ _ _ => n end) ns) probe_names
+        && forallb qn_ok ns
+    end.
+End ExtLaws.
+
+Definition ext_ok_spec (ms : list member) (e : ext) : bool :=
+  ext_ok (types_of ms) (spec_list ms) (spec_work ms) e.
+
+(* ------------------------------------------------------------------ the trace monitor *)
+Definition node_eqb (a b : node) : bool :=
+  Z.eqb (nid a) (nid b) && Bool.eqb (nalive a) (nalive b) && Z.eqb (nstate a) (nstate b)
+  && Z.eqb (naddr a) (naddr b) && list_eqb svc_eqb (nsvcs a) (nsvcs b).
+
+(* one publication, judged against the history that led to it: [self] is the node's record with
+   the state it set last *)
 Definition pub_ok (self : node) (listing : list node) (seen : list ev)
            (ms : list member) (q : answers) : bool :=
   (if forallb conform_evb seen
@@ -154,27 +224,100 @@ Definition pub_ok (self : node) (listing : list node) (seen : list ev)
    else true)
   && index_ok ms q.
 
-(* monitor state: the node's own record, the initial listing, the events delivered so far *)
-Definition mstate_t := option (node * list node * list ev).
+(* what the node registers about itself must conform to the guard of the theorems: under its own
+   key, its own current record, alive *)
+Definition reg_ok (self : node) (k : Z) (n : node) : bool :=
+  Z.eqb k (nid self) && node_eqb n self && nalive n.
+
+Record mprov := MP { m_self : node; m_listing : list node; m_seen : list ev; m_watches : Z; m_err : bool }.
+
+(* monitor state: the running provider (if any) and the member list last handed to the Cluster *)
+Definition mstate_t := (option mprov * list member)%type.
+
+Definition is_none (o : obs) : bool := match o with BNone => true | _ => false end.
 
 Fixpoint monitor_from (st : mstate_t) (ops : list op) (bs : list obs) : bool :=
   match ops, bs with
   | [], [] => true
-  | OStart self listing :: r, BPub ms q :: br =>
-      let self' := mk_self self in
-      pub_ok self' listing [] ms q && monitor_from (Some (self', listing, [])) r br
-  | OBatch b :: r, o :: br =>
-      match st with
-      | None => (match o with BNone => true | _ => false end) && monitor_from st r br
-      | Some (self, listing, seen) =>
-          if is_nil b then (match o with BNone => true | _ => false end) && monitor_from st r br
-          else match o with
-               | BPub ms q =>
-                   pub_ok self listing (seen ++ b) ms q
-                   && monitor_from (Some (self, listing, seen ++ b)) r br
-               | _ => false
-               end
+  | o :: r, b :: br =>
+      let '(mp, dir) := st in
+      match o with
+      | OStart self listing =>
+          let self' := mk_self self in
+          match (if Z.ltb (naddr self) (-1) then None else listing_nodes listing), b with
+          | None, BFail => monitor_from (None, dir) r br
+          | Some nodes, BStart regs wired ms q =>
+              negb (is_nil regs) && forallb (fun kn => reg_ok self' (fst kn) (snd kn)) regs && wired
+              && pub_ok self' nodes [] ms q
+              && monitor_from (Some (MP self' nodes [] 1 false), ms) r br
+          | _, _ => false
+          end
+      | OBatch ev =>
+          match mp with
+          | None => is_none b && monitor_from st r br
+          | Some p =>
+              if is_nil ev then is_none b && monitor_from st r br
+              else match b with
+                   | BPub ms q =>
+                       pub_ok (m_self p) (m_listing p) (m_seen p ++ ev) ms q
+                       && monitor_from (Some (MP (m_self p) (m_listing p) (m_seen p ++ ev)
+                                                 (m_watches p) (m_err p)), ms) r br
+                   | _ => false
+                   end
+          end
+      | OSelfState s =>
+          match mp, b with
+          | None, BNone => monitor_from st r br
+          | Some p, BReg k n =>
+              let self' := with_state (m_self p) s in
+              reg_ok self' k n
+              && monitor_from (Some (MP self' (m_listing p) (m_seen p) (m_watches p) (m_err p)), dir) r br
+          | _, _ => false
+          end
+      | OLeaseLost _ =>
+          match mp, b with
+          | None, BNone => monitor_from st r br
+          | Some p, BReg k n => reg_ok (m_self p) k n && monitor_from st r br
+          | _, _ => false
+          end
+      | ORewatch v =>
+          match mp, b with
+          | None, BNone => monitor_from st r br
+          | Some p, BWatch n healthy =>
+              let e := m_err p || negb (Z.eqb v 0) in
+              Z.eqb n (m_watches p + 1) && Bool.eqb healthy (negb e)
+              && monitor_from (Some (MP (m_self p) (m_listing p) (m_seen p) (m_watches p + 1) e), dir) r br
+          | _, _ => false
+          end
+      | OShutdown =>
+          match mp, b with
+          | None, BNone => monitor_from st r br
+          | Some p, BDown k cancelled =>
+              Z.eqb k (nid (m_self p)) && cancelled && monitor_from (None, dir) r br
+          | _, _ => false
+          end
+      | OQuery =>
+          match b with
+          | BQuery e => ext_ok_spec dir e && monitor_from st r br
+          | _ => false
+          end
+      | ONode n =>
+          match b with
+          | BNode n' ok => node_eqb n' n && ok && monitor_from st r br
+          | _ => false
+          end
+      | OSelfCluster id addr svcs =>
+          match b with
+          | BPub ms q =>
+              list_eqb member_eqb ms [self_cluster_member id addr svcs] && index_ok ms q
+              && monitor_from (mp, ms) r br
+          | _ => false
+          end
+      | OStress _ _ =>
+          match b with
+          | BStress ok => ok && monitor_from st r br
+          | _ => false
+          end
       end
-  | OStress _ _ :: r, BStress ok :: br => ok && monitor_from st r br
   | _, _ => false
   end.
